@@ -541,6 +541,16 @@ def run(ctx):
                                 ((r[0] == "Eq" and r[2] == ("int", 0)) or (r[0] == "Ne" and r[2] == ("int", 1))):
                             # `s.get(p..).and_then(|rest| rest.split_at_checked(k))` is None exactly when p + k > len(s)
                             x = values.strip_payload(r[1][1])
+                            if is_call(x) and callee_name(x[1]) in ("split_at_checked", "split_first_chunk") and x[2]:
+                                # the same, with the closure already applied to the payload of `s.get(p..)`
+                                g0 = values.strip_payload(W.expand(x[2][0]))
+                                if isinstance(g0, tuple) and g0 and g0[0] == "index" and g0[2][0] == "agg" and str(g0[2][1]).endswith("RangeFrom::RangeFrom"):
+                                    k_ = x[2][1] if len(x[2]) > 1 else ("int", 4)
+                                    synth = ("Lt", ("len", g0[1]), ("bin", "Add", g0[2][2][0], k_))
+                                    wit2, used2 = rejection_witness(list(rels) + [synth], roles, grid, consistent)
+                                    if rel_holds(synth, {roles[k2]: 0 for k2 in roles}) is not None and used2 and wit2 is None:
+                                        idiom = "input ends before the %s bytes being taken (get(p..) + split_at_checked)" % fmt(k_)
+                                    continue
                             if is_call(x) and callee_name(x[1]) == "and_then" and len(x[2]) == 2 and isinstance(x[2][1], tuple) and x[2][1][0] == "closure":
                                 g = values.strip_payload(W.expand(x[2][0]))
                                 K = P.fns.get(x[2][1][1])
